@@ -261,11 +261,13 @@ CHECKS["C16"] = {
             "(others closed without indication, nothing reaches another client), bind succeeds exactly once, only for the allocation's user, only before 30 s, after which the peer connection is closed; bound streams are equal as "
             "byte sequences in both directions, nothing echoed, close propagates; duplicate Connect -> 446 and a further request is still served; after every event relay-side connections == model, AllocationCount, relay "
             "listeners; (thorough) also with the deny-B operator policy: refused target never dialled. "
-            "Part genconn: the bundled generators (static, range, pass-through) x tcp4/tcp6 x wildcard/specific listen address x relay address equal to / different from the default source address: "
+            "Part udp-control: TCP allocations made over a datagram control channel (the server accepts them): Connect, inbound peer connections, ConnectionBind requests sent on that control channel (refused; they must change nothing: "
+            "the connection is closed when its 30 s are over), peer closes, Refresh 0, clock. Part genconn: the bundled generators (static, range, pass-through) x tcp4/tcp6 x wildcard/specific listen address x relay address equal to / different from the default source address: "
             "AllocateConn called as the allocation manager calls it reaches one and two peers from exactly the advertised relayed address and port, and the relay listener still accepts afterwards.",
     "parts": [A("vtx", "./checks/c16", "TestC16", budget={"quick": 120, "thorough": 1800}),
               A("sched", "./checks/bsem", "TestC16Sched", overlay=True, gomaxprocs=1, budget={"quick": 90, "thorough": 1500}),
               A("client-e2e", "./checks/c16", "TestC16ClientE2E", budget={"quick": 90, "thorough": 900}),
+              A("udp-control", "./checks/c16", "TestC16UDPControl", budget={"quick": 90, "thorough": 900}),
               A("genconn", "./checks/c16", "TestC16GenConn", nshards=1, budget={"quick": 60, "thorough": 60})],
 }
 
